@@ -808,14 +808,21 @@ class GraphBuilder(BuilderBase):
                     output.name = self._qualify_value_name(output.name)
             self.add_node(node)
 
-        # Apply names to final output values
+        # Apply names to final output values. Only values produced by the inlined
+        # nodes are renamed: an output that is one of the caller's own values (a
+        # function returning one of its inputs) keeps its name.
+        produced_ids = {id(o) for node in nodes for o in node.outputs}
         if desired_output_names:
             for output_val, name in zip(outputs, desired_output_names):
-                if output_val is not None:
+                if output_val is not None and id(output_val) in produced_ids:
                     output_val.name = name
         else:
             for output_val in outputs:
-                if output_val is not None and output_val.name:
+                if (
+                    output_val is not None
+                    and output_val.name
+                    and id(output_val) in produced_ids
+                ):
                     output_val.name = self._qualify_value_name(output_val.name)
 
         if _prefix:
